@@ -407,7 +407,7 @@ def make_diff_sweep(rng, idx):
     enumeration order, the history S -> e_1(S) -> S -> e_2(S) -> S -> ... with the edit applied at
     every line in turn (edit and undo), under one grammar version, plus a few seeded compound steps."""
     snips = corpus.SNIPPETS
-    S = snips[idx % len(snips)]
+    S = corpus.restyle(snips[idx % len(snips)], rng.choice(['\n', '\n', '\n', '\r', '\r\n']))
     k = idx // len(snips)
     kind = corpus.ELEMENTARY[k % len(corpus.ELEMENTARY)]
     version = corpus.VERSIONS[(k // len(corpus.ELEMENTARY) + idx) % len(corpus.VERSIONS)]
@@ -443,3 +443,74 @@ def make_plan(profile, seed, tier='quick'):
     plan['seed'] = seed
     plan['tier'] = tier
     return plan
+
+
+# ---------------------------------------------------------------------------
+# systematic two-actor scenarios (enumerated by runner.sweep_pairs)
+# ---------------------------------------------------------------------------
+PAIR_TEMPLATES = ['two-savers', 'saver-loader', 'saver-cleanup', 'clear-saver', 'parse-edit', 'loader-edit']
+
+
+def make_pair_plan(seed, template):
+    """A small fault-free scenario around one pair (A, B) of concurrent actors: ops before the pair
+    set the stage, the pair is ops[ia], ops[ib]; runner.sweep_pairs enumerates where A is pre-empted
+    (and where B is, in turn).  Returns (plan, ia, ib)."""
+    rng = random.Random('pair/%s/%d' % (template, seed))
+    cfg = _common_config(rng, 'torn')
+    cfg.update({'nproc': 2, 'p_yield': 0.0, 'p_fault': 0.0, 'fault_kinds': [], 'fault_src_crash': False,
+                'threads_share_process': rng.random() < 0.2 and template in ('two-savers', 'saver-loader'),
+                'warn_error': False, 'pair': template})
+    if len(cfg['files']) < 2:
+        cfg['files'] = (cfg['files'] + [f for f in FILE_NAMES if f not in cfg['files']])[:2]
+    cfg['cdirs'] = 1
+    state = {'n': {}}
+    init = []
+    for f in range(len(cfg['files'])):
+        state['n'][f] = 0
+        init.append({'text': _small_text(rng, f, 0)})
+    mode = rng.choice(['cache', 'cache', 'cache+diff']) if not cfg['threads_share_process'] else 'cache'
+    g = rng.randrange(len(cfg['grammars']))
+    P = lambda p, f, m=mode: {'k': 'parse', 'p': p, 'f': f, 'g': g, 'c': 0, 'm': m, 't': []}
+
+    def save(f, dt=5.0):
+        op = _edit_ops(rng, cfg, state, f=f)[-1]
+        op.update({'how': 'atomic', 'mt': None, 'dt': dt, 'noskew': True})
+        return op
+    ops = []
+    if template == 'two-savers':
+        a, b = P(0, 0), P(1, 0)
+    elif template == 'saver-loader':
+        ops += [P(0, 0), save(0)]
+        if rng.random() < 0.5:
+            ops.append(P(1, 0))                   # the other process has the old version in memory
+        a, b = P(0, 0), P(1, 0)
+    elif template == 'saver-cleanup':
+        ops += [P(0, 0), P(0, 1), {'k': 'age', 'c': 0, 'sel': None, 'days': rng.choice([31, 45]), 'lock': rng.choice([1.01, 40])},
+                save(0)]
+        if rng.random() < 0.5:
+            ops.append(save(1, dt=1.0))
+        a, b = P(0, 0), P(1, 1)
+    elif template == 'clear-saver':
+        ops += [P(0, 0), P(0, 1), save(0)]
+        a, b = {'k': 'clearcache', 'p': 0, 'c': 0, 'mem': rng.random() < 0.5, 't': []}, P(1, 0)
+    elif template == 'parse-edit':
+        # a miss (read + save) with the editor's save somewhere inside
+        ops += [P(0, 0), save(0)] if rng.random() < 0.5 else []
+        a, b = P(0, 0), save(0, dt=rng.choice([0.0, 0.001, 1.0, 2.5]))
+        if rng.random() < 0.3:
+            b['mt'] = rng.choice(['same', -1.0, -100.0])
+    else:  # loader-edit: a hit (memory or disk) with the editor's save somewhere inside
+        ops += [P(0, 0)]
+        if rng.random() < 0.5:
+            ops.append({'k': 'restart', 'proc': 0})
+        a, b = P(0, 0), save(0, dt=rng.choice([0.0, 0.001, 1.0, 2.5]))
+    ia = len(ops)
+    ops += [a, b]
+    ib = ia + 1
+    # barriers: the pair is finished before the epilogue starts
+    for q in (0, 1):
+        ops.append({'k': 'usednames', 'p': q, 'f': 0, 'g': g})
+    ops.append({'k': 'heal', 'keep_procs': True})
+    for f in (0, 1):
+        ops.append({'k': 'repaircheck', 'p': f, 'f': f, 'g': g, 'c': 0})
+    return {'sim': 'cacheworld', 'profile': 'torn', 'config': cfg, 'init': init, 'ops': ops, 'seed': seed}, ia, ib
